@@ -3,8 +3,8 @@ import Knut.FactsAgree.TransPerformanceDay
 /-!
 # `knut portfolio returns`: `j.Build().Process(ComputePrices, check, Valuate, ComputeValues, ComputeFlows, Perf)` over a WHOLE journal
 
-The processor list is the one of `cmd/commands/portfolio/returns.go` (`execute`), in this order — READ OFF THE SOURCE BY HAND (there is
-no extracted constant for it, a stated step):
+The processor list is the one of `cmd/commands/portfolio/returns.go` (`execute`), in this order — read off the source by hand and PINNED
+by `FactsAgree/ProcOrderPortfolio` (`ProcOrder.returnsOrder_eq`, against the list extracted from the source on every run):
 
     journal.ComputePrices(valuation), check.Check(), journal.Valuate(reg, valuation),
     calculator.ComputeValues(), calculator.ComputeFlows(), performance.Perf(j, partition)
